@@ -760,7 +760,7 @@ func main() {
 	run := ev.NewRun("C17", "model_checking")
 	depth, budget := 4, 50*time.Second
 	if run.Tier == "thorough" {
-		depth, budget = 5, 17*time.Minute
+		depth, budget = 6, 17*time.Minute
 	}
 	if d := os.Getenv("VERIF_DEPTH"); d != "" {
 		fmt.Sscanf(d, "%d", &depth)
